@@ -9,6 +9,26 @@ import (
 // AssignmentToString returns the string representation of the assignment.
 func AssignmentToString(f *model.Function, a model.Assignment) string {
 	var sb strings.Builder
+	if nest, ok := a.(model.NestStruct); ok {
+		// The assignments inside a nested struct need their own error checks.
+		if nest.NullCheckExpr != "" {
+			sb.WriteString("if ")
+			sb.WriteString(nest.NullCheckExpr)
+			sb.WriteString(" != nil {\n")
+		}
+		if nest.InitExpr != "" {
+			sb.WriteString(nest.InitExpr)
+			sb.WriteString("\n")
+		}
+		for _, content := range nest.Contents {
+			sb.WriteString(AssignmentToString(f, content))
+		}
+		if nest.NullCheckExpr != "" {
+			sb.WriteString("}\n")
+		}
+		return sb.String()
+	}
+
 	sb.WriteString(a.String())
 	if a.RetError() {
 		if f.DstVarStyle == model.DstVarReturn && f.Dst.Pointer {
